@@ -245,6 +245,18 @@ def accounted (i : Nat) : Bool :=
 theorem every_member_accounted : ∀ f ∈ List.range memberCount, accounted f = true := by
   decide +kernel
 
+/-- the code still has the shape every `healed` reason rests on (e.g. read_master_species ends with an *unconditional*
+    gfw_map.clear(), read_rates with rates_map.clear(), delete_entities with delete_info.SetAll(false)), and every healed
+    member has such an entry -/
+theorem healed_reasons_hold :
+    (∀ p ∈ healedBy, p ∈ policyEvidence) ∧ (∀ h ∈ healed, h.1 ∈ healedBy.map (·.1)) ∧ (∀ p ∈ ioHealedBy, p ∈ policyEvidence) := by
+  decide +kernel
+
+/-- every scratch member that the policy says "is overwritten by F" is indeed written by F -/
+theorem scratch_writers_exist :
+    (∀ p ∈ scratchWriter, p ∈ policyEvidence) ∧ (∀ p ∈ scratchWriter, p.1 ∈ scratch.map (·.1)) := by
+  decide +kernel
+
 /-- PHRQ_io switches that input can flip are restored by UnLoadDatabase / the read_input prologue or explained -/
 theorem io_flags_reset :
     ∀ f ∈ ioFlagsSetByReaders, f ∈ ioFlagsResetByUnload ∨ f ∈ ioFlagsResetByPrologue ∨ f ∈ ioHealed.map (·.1) ∨ f ∈ knownUnresetIo := by
